@@ -44,6 +44,7 @@ def setup(ctx):
     ctx.require("monitor", "l2_request_stalls", 10)
     ctx.require("monitor", "l2_close_notify_stalls", 20)
     ctx.require("monitor", "complete_slow", 10)
+    ctx.require("monitor", "complete_deliveries", 60)
     ctx.require("monitor", "l3_cases", 4)
 
 
@@ -239,6 +240,61 @@ def run_l1_slow(ctx):
                 ctx.case(("L1late", label, t_late, stream[:2]), True)
             finally:
                 close_loop(loop)
+
+
+def run_l1_complete_deliveries(ctx):
+    """A request that IS complete - however its bytes were spread over reads, and whatever comes after it in the
+    read that completes it (a trailing line end, the next request, junk) - is answered; the request timer is for
+    requests that are not complete, it never answers this one."""
+    from nauyaca.server import protocol as P
+
+    line_t = b"titan://example.org/f;size=12;mime=text/plain\r\n"
+    body = b"hello world!"
+    line_g = b"gemini://example.org/path?q\r\n"
+    surplus = [b"", b"\r\n", b"\n", b"X", b"gemini://example.org/next\r\n", b"\x00" * 40]
+    k = 0
+    for sp in surplus:
+        for name, feeds in (
+            ("titan:line|body+surplus", [line_t, body + sp]),
+            ("titan:line|body-1|last+surplus", [line_t, body[:-1], body[-1:] + sp]),
+            ("titan:line+half|half+surplus", [line_t + body[:6], body[6:] + sp]),
+            ("titan:line-1|crlf-end+body+surplus", [line_t[:-1], line_t[-1:] + body + sp]),
+            ("titan:all-in-one+surplus", [line_t + body + sp]),
+            ("gemini:line+surplus", [line_g + sp]),
+            ("gemini:line-1|lf+surplus", [line_g[:-1], line_g[-1:] + sp]),
+        ):
+            for gap in (0.0, 10.0):
+                k += 1
+                if not ctx.mine(k):
+                    continue
+                log = []
+                loop = new_loop()
+                try:
+                    h = SpyHandler({"mode": "sync", "outcome": "value", "status": 20, "meta": "text/gemini", "body": "ok\n"}, log, loop)
+                    up = SpyUpload({"outcome": "value", "status": 20, "meta": "text/gemini", "body": "stored\n"}, log, loop)
+                    sim = ServerSim(lambda: P.GeminiServerProtocol(h, None, up), loop=loop, log=log)
+                    sim.start()
+                    for f in feeds:
+                        if gap:
+                            sim.advance(gap / len(feeds))
+                        sim.feed(f)
+                    sim.finish(HORIZON)
+                    t = sim.transport
+                    stream = bytes(t.written)
+                    ctx.count("monitor", "complete_deliveries")
+                    wit = {"level": "L1", "reads": feeds, "after_the_request_in_its_last_read": sp, "seconds_between_reads": gap / len(feeds), "stream": stream[:80], "close_time": t.close_time,
+                           "handler_entries": len(h.calls), "upload_entries": len(up.calls)}
+                    if stream.startswith(b"40 Request timeout") or (t.close_time or 0) >= P.REQUEST_TIMEOUT:
+                        ctx.violation("timeout-after-complete:phase=delivery:backend=plain", f"the request was complete at t<={gap:.0f}s; it was answered {stream[:24]!r} at t={t.close_time}", wit)
+                    elif not t.closing:
+                        ctx.violation("held-open:phase=delivery:backend=plain", "a complete request was never answered and the connection stays open", wit)
+                    elif not stream.startswith(b"20 "):
+                        ctx.undecided(f"complete-delivery:answered-{stream[:2]!r}")
+                    else:
+                        ctx.count("outcome", "L1:complete-delivery-answered")
+                    ctx.case(("L1complete", name, len(sp), bool(gap), stream[:2]), True, sample=wit)
+                finally:
+                    close_loop(loop)
 
 
 # --------------------------------------------------------------------------- L2
@@ -567,6 +623,7 @@ def run_l3(ctx):
 def run(ctx):
     run_l1(ctx)
     run_l1_slow(ctx)
+    run_l1_complete_deliveries(ctx)
     run_l2(ctx)
     if ctx.shard == 0:
         run_l3(ctx)
